@@ -132,8 +132,8 @@ func classify(c *kit.Case, err error) string {
 // line is made of quote markers (each with at most one following space/tab), or is blank with the fenced block
 // inside a list item, and the two outputs agree once the white space directly in front of every
 // "</code></pre>" is removed.
-var reMarkerOnlyLastLine = regexp.MustCompile(`(^|\n)[ \t]{0,3}(>[ \t]{0,4})*>[ \t]?$`)
-var reBlankLastLine = regexp.MustCompile(`(^|\n)[ \t>]*[ \t]$`) // blank apart from quote markers in front
+var reMarkerOnlyLastLine = regexp.MustCompile(`(^|\n)[ \t]*(>[ \t]{0,4})*>[ \t]?$`)
+var reBlankLastLine = regexp.MustCompile(`(^|\n)[ \t\r>]*[ \t]$`) // blank apart from quote markers in front
 
 // inListItem: the last fenced code block of the document sits inside a list item
 func lastFenceInListItem(cfg gen.Config, src []byte) bool {
